@@ -104,10 +104,19 @@ def build_phase(ph, as_list=True, fresh=None):
 
 
 def build_dag(method, as_list=True):
-    from dagrt.language import DAGCode
+    from dagrt.language import DAGCode, ExecutionPhase
     phases = {}
     for ph in method["phases"]:
         _, phases[ph["name"]] = build_phase(ph, as_list)
+    if method.get("reuse_ids"):
+        # statement ids only have to be unique within a phase: give every phase the same ids s_0, s_1, ...
+        # (the builder's own ids carry the phase name)
+        for name, phase in list(phases.items()):
+            old = sorted((s.id for s in phase.statements), key=lambda i: int(i.rsplit("_", 1)[1]))
+            ren = {o: "s_%d" % k for k, o in enumerate(old)}
+            stmts = [s.copy(id=ren[s.id], depends_on=frozenset(ren[d] for d in s.depends_on)) for s in phase.statements]
+            phases[name] = ExecutionPhase(name=name, next_phase=phase.next_phase,
+                                          statements=stmts if as_list else frozenset(stmts))
     return DAGCode(phases, method["initial"])
 
 
